@@ -99,6 +99,7 @@ class Interp:
         self.config = config or {}
         self.obligations = []
         self.unmodelled = {}
+        self.uninterpreted = {}
         self.assumptions = {}
         self.lemma_uses = {}
         self.entry = None
@@ -1092,7 +1093,28 @@ class Interp:
         if h is not None:
             self.stats["user_calls"] += 1
             return h(self, st, fr, e, callee, vals)
+        # 6. pure core/std functions without a transfer function (no &mut argument, boolean or unsigned result):
+        #    an uninterpreted function of the argument values — nothing is assumed about the result except that
+        #    equal arguments give equal results; paths through both outcomes are explored
+        if d.startswith(("core::", "std::", "alloc::")) and not any(isinstance(x, VMutRef) for x in vals):
+            import contracts_lax
+            key = ("ufn", d) + tuple(contracts_lax.key_of(stdlib.deref(self, st, x)) for x in vals)
+            if tyd["k"] == "bool":
+                self.stats["ufn_calls"] = self.stats.get("ufn_calls", 0) + 1
+                self.uninterpreted.setdefault(d, []).append(e.get("sp", "?"))
+                return [(st, VBool(("unk", key)), None)]
+            if tyd["k"] == "uint":
+                self.stats["ufn_calls"] = self.stats.get("ufn_calls", 0) + 1
+                self.uninterpreted.setdefault(d, []).append(e.get("sp", "?"))
+                return [(st, VNat(Poly.atom(key)), None)]
         self.unmodelled_call(d, fr, e)
+        # nothing is known about what the callee does to the places it can write: forget them
+        for x in vals:
+            if isinstance(x, VMutRef):
+                try:
+                    self.write_place(st, x.place, VTop("written by unmodelled " + d))
+                except Exception:
+                    pass
         return [(st, VTop("unmodelled " + d), None)]
 
     def enclosing_macro(self, e):
